@@ -189,7 +189,7 @@ def parse_kani(out):
     if m:
         r["verif_time"] = float(m.group(1))
     # Check N: name \n - Status: X \n - Description: "..." \n - Location: file:line:col in function f
-    for m in re.finditer(r"Check \d+: (\S+)\n\s+- Status: (\w+)\n\s+- Description: \"((?:[^\"\\]|\\.)*)\"\n(?:\s+- Location: ([^\n]*)\n)?", out):
+    for m in re.finditer(r"Check \d+: ([^\n]+)\n\s+- Status: (\w+)\n\s+- Description: \"((?:[^\"\\]|\\.)*)\"\n(?:\s+- Location: ([^\n]*)\n)?", out):
         name, st, desc, loc = m.group(1), m.group(2), m.group(3), m.group(4) or ""
         if ".cover." in name:
             r["covers"][desc] = st
@@ -247,7 +247,7 @@ def run_harness(h, tier, playback=False, keep=False):
     if os.path.exists(os.path.join(bt, ".warm")):
         subprocess.run(["cp", "-a", bt, tdir], check=False)
     res = {"name": name, "fq": h["fq"], "expect": h["expect"]}
-    mem = GATE.acquire(h["mem"])
+    mem = GATE.acquire(max(24, 3 * h["mem"]) if playback else h["mem"])
     t0 = time.time()
     try:
         z = ["-Z", "unstable-options"]
@@ -277,8 +277,9 @@ def run_harness(h, tier, playback=False, keep=False):
             cmd += ["-Z", "concrete-playback", "--concrete-playback=print"]
         if uw:
             cmd += ["--cbmc-args", "--unwindset", uw]
-        rc, out, dt, to = run(cmd, cwd=SLICE, timeout=h["timeout"] * (3 if tier == "thorough" else 1),
-                              mem_gb=h["mem"])
+        # a playback run needs --trace, which switches CBMC's formula slicing off: give it room
+        rc, out, dt, to = run(cmd, cwd=SLICE, timeout=h["timeout"] * (3 if (tier == "thorough" or playback) else 1),
+                              mem_gb=(max(24, 3 * h["mem"]) if playback else h["mem"]))
         log += "\n=====\n" + " ".join(cmd) + "\n" + out
         res["wall_s"] = round(time.time() - t0, 1)
         pr = parse_kani(out)
